@@ -73,15 +73,30 @@ func TestC14Child(t *testing.T) {
 		if job.SnapDir == "" {
 			return
 		}
-		dst := filepath.Join(job.SnapDir, fmt.Sprintf("op%d", i), "consensus-wal")
-		os.MkdirAll(dst, 0o755)
-		ents, _ := os.ReadDir(walDirOf(job.Base))
+		// the copy itself runs under the fault injector (its opens and reads of the WAL files are
+		// traced paths too): a copy that met an error is discarded, never judged
+		top := filepath.Join(job.SnapDir, fmt.Sprintf("op%d", i))
+		dst := filepath.Join(top, "consensus-wal")
+		ok := os.MkdirAll(dst, 0o755) == nil
+		ents, err := os.ReadDir(walDirOf(job.Base))
+		ok = ok && err == nil
 		for _, e := range ents {
-			_ = copyFile(filepath.Join(dst, e.Name()), filepath.Join(walDirOf(job.Base), e.Name()))
+			if !ok {
+				break
+			}
+			ok = copyFile(filepath.Join(dst, e.Name()), filepath.Join(walDirOf(job.Base), e.Name())) == nil
+		}
+		if !ok {
+			os.RemoveAll(top)
+			say("X %d snapshot-discarded", i)
 		}
 	}
 	ops := append([]op{{Kind: opOpen}}, job.Ops...)
 	failures := 0
+	// after a failed call the directory is also copied after each of the next few successful
+	// flush / close / open calls: what a retry leaves on disk is judged, not only what the
+	// failure itself left
+	followUps := 0
 	for k, o := range ops {
 		i := k - 1
 		if job.MaxFail > 0 && failures >= job.MaxFail && !(k == len(ops)-1 && o.Kind == opClose) {
@@ -111,9 +126,14 @@ func TestC14Child(t *testing.T) {
 		}
 		if err != nil {
 			failures++
+			followUps = 4
 			snap(i)
 			say("R %d err %s %s", i, view(), oneLine(err.Error()))
 			continue
+		}
+		if followUps > 0 && (o.Kind == opFlush || o.Kind == opClose || o.Kind == opOpen) {
+			followUps--
+			snap(i)
 		}
 		say("R %d ok %s", i, view())
 	}
